@@ -22,6 +22,7 @@ import (
 	"reflect"
 	"runtime"
 	"runtime/debug"
+	"runtime/pprof"
 	"sort"
 	"strings"
 	"sync"
@@ -563,6 +564,16 @@ func (r *runner) doStep(ctx context.Context, st *step, lane int) {
 		var cancel func()
 		ctx, cancel = context.WithTimeout(ctx, time.Duration(to)*time.Second)
 		defer cancel()
+		if d := vtr.EnvInt("VERIF_DUMP_AFTER_S", 0); d > 0 {
+			// diagnosis of blocked steps: write all goroutine stacks once the step has taken d seconds
+			tm := time.AfterFunc(time.Duration(d)*time.Second, func() {
+				if f, err := os.Create(fmt.Sprintf("%s/goroutines_sc%d_%s_%d.txt", vtr.OutDir(), r.sc.ID, st.Do, time.Now().UnixNano())); err == nil {
+					pprof.Lookup("goroutine").WriteTo(f, 2)
+					f.Close()
+				}
+			})
+			defer tm.Stop()
+		}
 	}
 	switch st.Do {
 	case "run":
@@ -758,8 +769,10 @@ func runScenario(sc *scenario) (rec vtr.Rec) {
 	}
 	var opts []exec.Option
 	var kl *killer
+	var tsys *testsystem.System
 	if sc.Exec == "bigmachine" {
 		sys := testsystem.New()
+		tsys = sys
 		if sc.MachProcs > 0 {
 			sys.Machineprocs = sc.MachProcs
 		}
@@ -828,6 +841,27 @@ func runScenario(sc *scenario) (rec vtr.Rec) {
 		case <-time.After(20 * time.Second):
 		}
 	}
+	if tsys != nil {
+		// the test system never closes the servers of its machines; do it, or long batches run out of descriptors
+		cleaned := make(chan struct{})
+		go func() {
+			defer close(cleaned)
+			for i := 0; i < 1000 && tsys.N() > 0; i++ {
+				tsys.Kill(nil)
+			}
+			if t, ok := tsys.HTTPClient().Transport.(*http.Transport); ok {
+				t.CloseIdleConnections()
+			} else if kl != nil {
+				if t, ok := kl.base.(*http.Transport); ok {
+					t.CloseIdleConnections()
+				}
+			}
+		}()
+		select {
+		case <-cleaned:
+		case <-time.After(15 * time.Second): // a server waits for its outstanding handlers; do not wait with it
+		}
+	}
 	r.mu.Lock()
 	rec["events"] = append([]vtr.Rec{}, r.evs...)
 	r.mu.Unlock()
@@ -836,6 +870,9 @@ func runScenario(sc *scenario) (rec vtr.Rec) {
 		counts, _ := kl.arm(nil)
 		rec["rpc"] = counts
 		rec["killlog"] = kl.getLog()
+		kl.mu.Lock()
+		rec["addr_reused_calls"] = kl.reused
+		kl.mu.Unlock()
 	}
 	return
 }
@@ -862,10 +899,12 @@ type killer struct {
 	counts map[string]int
 	nfired int
 	log    []vtr.Rec
+	dead   map[string]bool // addresses of killed machines
+	reused int             // calls addressed to a killed machine while a new machine had its address
 }
 
 func newKiller(sys *testsystem.System) *killer {
-	k := &killer{sys: sys, counts: map[string]int{}, log: []vtr.Rec{}}
+	k := &killer{sys: sys, counts: map[string]int{}, log: []vtr.Rec{}, dead: map[string]bool{}}
 	c := sys.HTTPClient()
 	k.base = c.Transport
 	c.Transport = k
@@ -901,13 +940,28 @@ func (k *killer) getLog() []vtr.Rec {
 
 func (k *killer) kill(addr string, pl *killPlan) {
 	killed := false
-	for i := 0; i < k.sys.N(); i++ {
-		func() {
-			defer func() { recover() }() // Index panics if a machine went away meanwhile
-			if m := k.sys.Index(i); m.Addr == addr {
-				killed = k.sys.Kill(m) || killed
-			}
-		}()
+	k.mu.Lock()
+	k.dead[addr] = true
+	k.mu.Unlock()
+	done := make(chan bool, 1)
+	// Kill closes the machine's connections first and then waits for its outstanding handlers; the machine is
+	// dead for the session as soon as the connections are gone, so the wait is bounded here
+	go func() {
+		ok := false
+		for i := 0; i < k.sys.N(); i++ {
+			func() {
+				defer func() { recover() }() // Index panics if a machine went away meanwhile
+				if m := k.sys.Index(i); m.Addr == addr {
+					ok = k.sys.Kill(m) || ok
+				}
+			}()
+		}
+		done <- ok
+	}()
+	select {
+	case killed = <-done:
+	case <-time.After(5 * time.Second):
+		killed = true
 	}
 	k.mu.Lock()
 	k.nfired++
@@ -915,27 +969,33 @@ func (k *killer) kill(addr string, pl *killPlan) {
 	k.mu.Unlock()
 }
 
+// midBody delivers the first `left` bytes of a streamed reply, then kills the machine; what had not been delivered
+// by then is lost with the connection (the client may have buffered it already, a real connection would not
+// have), so every later Read fails.
 type midBody struct {
 	io.ReadCloser
 	left int
+	dead bool
 	hit  func()
 }
 
 func (b *midBody) Read(p []byte) (int, error) {
-	if b.left > 0 && len(p) > b.left {
+	if b.dead {
+		return 0, fmt.Errorf("verif: read: connection reset by peer")
+	}
+	if b.left <= 0 {
+		b.dead = true
+		b.hit()
+		return 0, fmt.Errorf("verif: read: connection reset by peer")
+	}
+	if len(p) > b.left {
 		p = p[:b.left]
 	}
 	n, err := b.ReadCloser.Read(p)
-	if b.left > 0 {
-		b.left -= n
-		if b.left <= 0 || err != nil {
-			b.left = 0
-			b.hit()
-			b.left = -1
-		}
-	} else if b.left == 0 {
+	b.left -= n
+	if err != nil { // the reply was shorter than the kill point: the machine dies right after it
+		b.dead = true
 		b.hit()
-		b.left = -1
 	}
 	return n, err
 }
@@ -945,6 +1005,23 @@ func (k *killer) RoundTrip(req *http.Request) (*http.Response, error) {
 	addr := req.URL.Scheme + "://" + req.URL.Host
 	var pl *killPlan
 	k.mu.Lock()
+	if k.dead[addr] {
+		// A killed machine stays dead: the test system's machines listen on ephemeral ports, and a replacement
+		// machine may be given the port of the machine it replaces; calls still addressed to the dead machine
+		// (retries of calls that were in flight) must not reach the newcomer.
+		k.mu.Unlock()
+		for i := 0; i < k.sys.N(); i++ {
+			func() {
+				defer func() { recover() }()
+				if k.sys.Index(i).Addr == addr {
+					k.mu.Lock()
+					k.reused++
+					k.mu.Unlock()
+				}
+			}()
+		}
+		return nil, fmt.Errorf("verif: connect %s: machine was killed", addr)
+	}
 	k.counts[method]++
 	n := k.counts[method]
 	for i := range k.plans {
